@@ -206,8 +206,8 @@ claim("C01", "model_checking", "TLA+ transcription of Go's integer semantics (Wa
       "14 boundary operands and 13 shift counts; each case runs through a Wa function whose operands are parameters, in programs compiled and executed by the real toolchain "
       "(a case that stops the program is reported and the rest re-run). Slice/append aliasing is decided by WaStore.tla; zero values and initialisers of composite types in 27 contexts "
       "by WaGen.tla; maps by the WaMap/FiniteMap transitions of C13; struct/array copies, pointer/slice/closure/method aliasing, defer (argument evaluation time, LIFO, named results) by "
-      "WaProc.tla, an interpreter for 15 statement atoms whose every sequence up to length 3 (4 in thorough) is run as a Wa function; strings as byte sequences (range decoding with every invalid UTF-8 class, []rune/string(rune) conversions, comparison, concatenation, slicing) by WaStr.tla on the decoding automaton of StdLib.tla.",
-      "Trusted: TLC, BV.tla, the renderer. Decided: the integer kernel and the four models named above; floats, interfaces/type switches and control flow beyond calls are not in "
+      "WaProc.tla, an interpreter for 15 statement atoms whose every sequence up to length 3 (4 in thorough) is run as a Wa function; strings as byte sequences (range decoding with every invalid UTF-8 class, []rune/string(rune) conversions, comparison, concatenation, slicing) by WaStr.tla on the decoding automaton of StdLib.tla; loops with loop-carried variables, break/continue and conditional assignment by WaFlow.tla (every loop body up to length 3 / 4 over 14 atoms, six runs each).",
+      "Trusted: TLC, BV.tla, the renderer. Decided: the integer kernel and the four models named above; floats and interfaces/type switches are not in "
       "the case space; Go-style value-receiver methods (`func (s: S) M()`) are not generated: they are accepted by the type checker but compile to an invalid module (undocumented feature). Open known findings: signed MIN / -1 traps; shift counts are taken modulo the width.",
       "DESIGN.md section 4 (language kernel)")
 claim("C14", "model_checking", "TLA+ declarative definitions of the library functions (StdLib.tla) evaluated by TLC on a bounded argument space + generated Wa programs calling the real library",
